@@ -557,4 +557,4 @@ impl IntoIterator for Linkage<'_> {
 
 #[cfg(kani)]
 #[path = "/verif/kani/linkage.rs"]
-mod verif_kani;
+pub(crate) mod verif_kani;
